@@ -7,7 +7,10 @@
 (* text the engine has already dealt with, so wherever the component       *)
 (* prints `body` -- directly, from a template it includes (whatever that   *)
 (* template's own escaping mode), forwarded as the body of another         *)
-(* component, after a `set` -- the text arrives unchanged.                 *)
+(* component, after a `set` -- the text arrives unchanged.  Where caller,   *)
+(* component and included template do not share one escaping mode the      *)
+(* statements only say that the template call gives the same text as       *)
+(* render_component given the rendered body: that is what is compared.     *)
 (*                                                                         *)
 (* A body is a sequence of pieces; every configuration in bounds is an     *)
 (* initial state and the expected text is computed here.                   *)
@@ -41,5 +44,8 @@ Next == UNCHANGED vars
 InvStaticSame == (\A i \in 1..Len(body) : body[i] \in {"text", "safe", "cond"}) => BodyOut(body, 1, TRUE) = BodyOut(body, 1, FALSE)
 InvEscLonger == Len(BodyOut(body, 1, TRUE)) >= Len(BodyOut(body, 1, FALSE))
 Emit == PrintT(<<"VEC", ToJson([body |-> body, via |-> via, attrs |-> attrs, callerAE |-> callerAE, compAE |-> compAE,
-                                 out |-> Expected(body, via, callerAE)])>>)
+                                 bt |-> BodyOut(body, 1, callerAE), out |-> Expected(body, via, callerAE),
+                                 \* every template that takes part shares one escaping mode: the exact text is demanded (C01 / C05);
+                                 \* otherwise only what C05 says of the API: the same text as render_component given this body
+                                 uniform |-> (callerAE = compAE /\ (via = "include-html" => callerAE) /\ (via = "include-txt" => ~callerAE))])>>)
 =============================================================================
